@@ -29,7 +29,7 @@ let () =
   let nt = nn + 1 in
   let ((pol_model, pol_all), pol_one) = ev_pols in
   let pol = match (try Sys.getenv "EXPLORE_POL" with Not_found -> "model") with "all" -> pol_all | "one" -> pol_one | _ -> pol_model in
-  let init = ev_init kind (n_of_int cap) tcap pol lp (fun u -> let i = int_of_nat u in if i < nn then nps.(i) else []) (fun _ -> ff) in
+  let init = ev_init kind (n_of_int cap) tcap pol (n_of_int 56) lp (fun u -> let i = int_of_nat u in if i < nn then nps.(i) else []) (fun _ -> ff) in
   let key ((g, ls) : (egst, elst) cfg) : string =
     let ((_, _), nw) = ev_obs g in
     let ws = List.init (int_of_n nw) (fun w -> ev_words g (n_of_int w)) in
@@ -59,8 +59,8 @@ let () =
     let ((stc, _), nw) = ev_obs g in
     let stc = int_of_n stc and nw = int_of_n nw in
     let lpc = let (((_, pc), _), _) = ev_local (ls O) in pc in
-    let inphase i = match lpc with LStoreIdle | LEmpty -> true | LDrain (w, _) -> int_of_n w <= widx i | _ -> false in
-    (match lpc with LDrain (w, _) -> if int_of_n w >= nw then fail "drain-bound" id | _ -> ());
+    let inphase i = match lpc with LStoreIdle | LEmpty -> true | LDrainPtr (w, _) | LDrain (w, _) -> int_of_n w <= widx i | _ -> false in
+    (match lpc with LDrainPtr (w, _) | LDrain (w, _) -> if int_of_n w >= nw then fail "drain-bound" id | _ -> ());
     for i = 0 to cap - 1 do
       let (((nt_, dl), cv), (dn, lo)) = ev_ghost g (n_of_int i) in
       let nt_ = int_of_n nt_ and dl = int_of_n dl and cv = int_of_n cv and dn = int_of_n dn in
@@ -83,10 +83,10 @@ let () =
         if x > int_of_n nt_ then fail "myidx" id;
         if stc = 0 && not (x <= int_of_n cv || inphase i) then fail "Aux" id
       | NCasIP i -> let (((nt_, _), _), _) = ev_ghost g i in if x > int_of_n nt_ then fail "myidx" id
-      | LWait _ | LStoreIdle | LEmpty | LDrain _ -> fail "role" id
+      | LWait _ | LStoreIdle | LEmpty | LDrainPtr _ | LDrain _ -> fail "role" id
       | _ -> ()
     done;
-    (match lpc with NActCas _ | NCasIP _ | NTrig _ | NCasPN _ -> fail "role" id | _ -> ()) in
+    (match lpc with NAct _ | NActCas _ | NCasIP _ | NTrig _ | NCasPN _ -> fail "role" id | _ -> ()) in
   let deadlocks = ref 0 and lost = ref 0 and bad = ref 0 and lost_not_bad = ref 0 and bad_exit = ref 0 in
   let first_lost = ref None and first_bad = ref None and first_lnb = ref None in
   let maxstates = try int_of_string (Sys.getenv "EXPLORE_MAX") with Not_found -> 3000000 in
